@@ -450,6 +450,8 @@ def run(names):
             name, prop, rel, old, new, expect = m
             if names and not any(n in name for n in names):
                 continue
+            if os.environ.get("MUT_PROPS") and prop not in os.environ["MUT_PROPS"].split(","):
+                continue
             if os.path.exists(copy):
                 shutil.rmtree(copy)
             os.makedirs(copy)
